@@ -254,7 +254,15 @@ def run_C13(ctx, R):
 
     def minify_loops(units, r):
         u = units['cJSON.c']
-        parse.bnd6(units, r, functions=[u.fn(n) for n in bnd3.MINIFY])
+        # what the callers guarantee about the bytes at a callee's cursor (BND3 infers it and checks it at every call site)
+        fam = [u.fn(n) for n in bnd3._family(u, bnd3.MINIFY)]
+        reqs = bnd3.infer(u, fam)
+        nonterm = {}
+        for f in fam:
+            for (i, _n, key) in bnd3._cursor_params(u, f):
+                if reqs.get(f.name, {}).get(i):
+                    nonterm.setdefault(f.name, {})[key] = reqs[f.name][i]
+        parse.bnd6(units, r, functions=[u.fn(n) for n in bnd3.MINIFY], nonterm=nonterm)
         r.floor('BND6', 'loops in the minify family', len(r.obs), 1)
 
     def minify_out(units, r):
@@ -265,11 +273,16 @@ def run_C13(ctx, R):
             if o.function in bnd3.MINIFY:
                 r.obs.append(o)
         r.floor('OUT5', 'write-cursor obligations in the minify family', len(r.obs), 5)
-    _per_config(ctx, R, bnd3.bnd3_minify)
-    _per_config(ctx, R, minify_out)
-    _per_config(ctx, R, minify_loops)
-    _per_config(ctx, R, tab.tab13)
-    _per_config(ctx, R, tab.tab19)
+    # a helper shared by thin wrappers (skip_comment(input, "*/", 2)) is analysed as its wrappers, constants in place
+    from .specialize import specialize
+
+    def on_minify(rule):
+        return lambda units, r: rule(specialize(units, 'cJSON.c', ('cJSON_Minify',)), r)
+    _per_config(ctx, R, on_minify(bnd3.bnd3_minify))
+    _per_config(ctx, R, on_minify(minify_out))
+    _per_config(ctx, R, on_minify(minify_loops))
+    _per_config(ctx, R, on_minify(tab.tab13))
+    _per_config(ctx, R, on_minify(tab.tab19))
 
 
 def _only_functions(rule, names, floor_rule, floor):
